@@ -683,3 +683,51 @@ def cases(tier='quick'):
     cs, meta = _cases4(tier)
     cs.append(InstructionClasses())
     return cs, meta
+
+
+class InstructionClassesAnyLength(Case):
+    """the same statement for instruction lists of ANY length: each of the three functions returns the filter of the WHOLE list
+    self.instructions by membership of instruction.disasm in beginning_block / end_block / neither (AbstractSeq summary: the value
+    returned is the derived sequence filter(S, p) of the block's own list S, and p is read off the AST)"""
+    prop = 'C05'
+    tier = 'P'
+    name = "AsmBlock.instruction-classes(any length)"
+    stand_in = "AsmBlock.instruction-classes(bounded)"
+    assumptions = ("filter over a list is the list homomorphism (AbstractSeq summary); the predicate is identified by its AST",)
+
+    def __init__(self):
+        from sfs_generator.asm_block import AsmBlock
+        self.functions = (AsmBlock.instructions_initial_bytecode, AsmBlock.instructions_to_optimize_bytecode, AsmBlock.instructions_final_bytecode)
+
+    def run(self, H):
+        if not H.symbolic:
+            return
+        from sfs_generator.asm_block import AsmBlock
+        from .c08 import abstract_block
+        b = abstract_block(H, 'B')
+        S = b._instructions
+        want = {'initial': (AsmBlock.instructions_initial_bytecode, ["ops=[In()]", "attr='beginning_block'"], ["end_block", "NotIn()"]),
+                'final': (AsmBlock.instructions_final_bytecode, ["ops=[In()]", "attr='end_block'"], ["beginning_block", "NotIn()"]),
+                'to-optimize': (AsmBlock.instructions_to_optimize_bytecode, ["BoolOp(op=And()", "attr='beginning_block'", "attr='end_block'", "ops=[NotIn()]"], ["ops=[In()]", "Or()"])}
+        for nm, (fn, must, must_not) in want.items():
+            before = set(S._derived)
+            out = H.call(fn, b)
+            H.check(nm + ':raises-nothing', out.ok, info=repr(out.exc))
+            if not out.ok:
+                continue
+            new = [(k, d) for k, d in S._derived.items() if k not in before or d is out.value]
+            mine = [(k, d) for k, d in S._derived.items() if d is out.value]
+            H.check(nm + ':result-is-a-filter-of-the-whole-instruction-list', len(mine) == 1 and mine[0][0][0] == 'filter', info=repr(out.value))
+            if len(mine) == 1:
+                key = mine[0][0][1]
+                H.check(nm + ':filter-predicate-is-the-class-membership-of-instruction.disasm',
+                        "attr='disasm'" in key and all(m in key for m in must) and not any(m in key for m in must_not), info=key[:400])
+
+
+_cases5 = cases
+
+
+def cases(tier='quick'):
+    cs, meta = _cases5(tier)
+    cs.append(InstructionClassesAnyLength())
+    return cs, meta
